@@ -47,6 +47,11 @@ CHECKS = {
          'NoError results must be closed 2-manifolds with finite numbers).',
          'AddressSanitizer/UBSan are the memory-safety witnesses; polygon/point-set/OBJ/numeric-argument classes are covered by other checks',
          'TLC-enumerated abstract inputs (fault classes) executed on the real code under sanitizers', '5 C09'),
+ 'C11': ('model_checking', 'Xsec.tla: exact integer winding numbers of pixel centres for arbitrary lattice/half-lattice contours under Positive/EvenOdd, set-algebra '
+         'Booleans/BatchBoolean and lattice transforms, with the oracle\'s own soundness invariants and the set laws checked by TLC on every state; every contour set of <=2 catalogue '
+         'contours and every small program enumerated exhaustively (plus seeded simulation and >1024-edge staircases). Every program is executed through the real CrossSection API and every '
+         'object judged by an independent crossing-number oracle on ToPolygons(), Area(), an exact-arithmetic Regularized predicate, lattice-ness and operand-order independence.',
+         'lattice / half-lattice regime; drive/xsec.h oracles; hand binding of generators to API calls', 'explicit TLA+ specification + TLC (BFS and -simulate) + replay binding', '5 C11'),
  'C13': ('model_checking', 'ParScan/ParReduce.tla: the oneTBB scan/reduce protocols over transcriptions of ScanBody, CopyIfScanBody, SortedRange, all protocol '
          'instances enumerated and checked equal to the sequential algorithm (regression variants refuted); UnionFind/HashTable.tla: one step per '
          'atomic access, all interleavings of 2-3 threads checked. Every protocol instance is executed call for call on the real bodies, every '
@@ -54,6 +59,12 @@ CHECKS = {
          'for lengths around the thresholds.',
          'scan protocol = documented Body contract (one legal two-pass scheme), not TBB\'s task graph; whole-template TBB schedules are sampled',
          'TLC model checking of protocols/interleavings + replay of every enumerated instance/schedule on the real code', '5 C13'),
+ 'C14': ('model_checking', 'RadixTree.tla transcribes collider.h (CreateRadixTree with index tie-break/RangeEnd/FindSplit, BuildInternalBoxes arrival counters under all interleavings, '
+         'FindCollision stack traversal, Box overlap/Transform); TLC checks full-binary-tree, contiguous-range and partition invariants for every sorted Morton multiset of 2..6 leaves over 8 codes, '
+         'box = union of range, and traversal = brute-force closed-interval set on every tree x interval assignment x query. Every TLC-printed case plus seeded sets up to 5000 leaves are executed on the real '
+         'Collider (all Collisions overloads, Transform, UpdateBoxes), the boolean2 sweep/BVH broad phase and the polygon k-d tree, and pair multisets compared.',
+         'hand transcription of collider.h:76-235 (tree shape compared with the real CreateRadixTree on every case); driver brute-force scan for large cases validated against the spec',
+         'TLC model checking of a transcription + TLC case generation with spec-computed oracle + replay on the real code', '5 C14'),
  'C15': ('model_checking', 'Ctx.tla: the cancellation/progress protocol with Cancel enabled between any two steps (AllOrNothing, ProgressBounded/Monotone, '
          'CompletedMeansOne, ShortCircuit, CancelSticky, termination; the variant without the post-helper check is refuted). The probe in '
          'IsCancelled injects Cancel at the k-th check for every k of every case (Expr.tla expressions with shared/held/pre-evaluated parts, and the '
